@@ -810,6 +810,7 @@ impl SnapshotAccumulator {
         use blake3::Hasher;
 
         let mut hasher = Hasher::new();
+        hasher.update(crate::domain::STATE_ROOT_V1);
 
         // Root binding
         hasher.update(&root.warp_id.0);
